@@ -45,7 +45,11 @@ ASSUMPTIONS = [
 EXPLANATION = (
     "validate()==[] => ValidDoc (Lean) on generated documents; accepted documents + accepted variables + conforming "
     "data => no errors and shapeResponse(data) (Lean, through the driver); hostile data => no request-attributable "
-    "error. Theorems: see Gql/Props/C13.lean."
+    "error. Theorems (Gql/Props/C13.lean): soundness_partial1 (fields/arguments/literals/abstract types), _partial2 "
+    "(+ variables, allowed position incl. the default clause, run-time exception decided per position), _partial3 "
+    "(+ fragments, type conditions, @skip/@include, merged keys under MergeOk; checkable instance "
+    "mergeOk_of_keyNames), blame_partial2/3 (arbitrary data: no argument/directive coercion error). Hypotheses left: "
+    "value layer (OpsSoundV, C15), schema validity (SoundHyps), field merging (MergeOk, C14)."
 )
 
 def make_case(seed_text):
